@@ -1,0 +1,14 @@
+//go:build verif
+// +build verif
+
+package websocket
+
+import "github.com/henrylee2cn/erpc/v6"
+
+// VerifSentinels returns the package-level predefined statuses by name
+// (verification builds only).
+func VerifSentinels() map[string]*erpc.Status {
+	return map[string]*erpc.Status{
+		"statInternalServerError": statInternalServerError,
+	}
+}
